@@ -1724,6 +1724,9 @@ func ageOnce(seed uint64, n int) {
 // replaySched re-executes one plan document; reproduced = the expected key is
 // among the findings (or, without expectation, there is any finding).
 func replaySched(cfg WorkerCfg) int {
+	if handled, code := replayC13Stream(cfg); handled {
+		return code
+	}
 	plans, err := readPlans(cfg.File)
 	if err != nil || len(plans) != 1 {
 		fmt.Fprintln(os.Stderr, "bad replay file:", err)
